@@ -278,6 +278,104 @@ Example globals_assigned_inside_nonvacuous :
                = (t, Finished, s').
 Proof. exact (conj ex_pre_inv ex_global_persist_runs). Qed.
 
+(* ---- the scope chosen by the built-ins, seen after the return ------------------------------- *)
+
+(* `readonly NAME[=VALUE]` executed inside a function (at any depth: [s] is any
+   reachable state; with or without temporary assignments before the call):
+   after the return the name is still a variable, read-only, with the value
+   given.  (readonly.rs forces Scope::Global: the visible variable or a new
+   one in the base context is marked, never a new local.) *)
+Theorem readonly_in_function_persists : forall ov oe temps n v args s t s',
+  Inv s ->
+  irun vset step ov oe (compile (CCall temps [CReadonly n v] args)) s = (t, Finished, s') ->
+  exists w, get s' n = Some w /\ is_ro w = true /\ forall x, v = Some x -> vval w = Some x.
+Proof. exact readonly_in_function_lemma. Qed.
+
+(* `export NAME[=VALUE]` inside a function: the same with the export flag. *)
+Theorem export_in_function_persists : forall ov oe temps n v args s t s',
+  Inv s ->
+  irun vset step ov oe (compile (CCall temps [CExport n v] args)) s = (t, Finished, s') ->
+  exists w, get s' n = Some w /\ vexp w = true /\ forall x, v = Some x -> vval w = Some x.
+Proof. exact export_in_function_lemma. Qed.
+
+(* `typeset [-x] [-r] NAME[=VALUE]` (no -g) inside a function, whatever the
+   options, the temporary assignments before the function and before typeset:
+   after the return the name is exactly as before the call. *)
+Theorem typeset_local_vanishes_at_return : forall ov oe temps tt x r n v args s t s',
+  Inv s ->
+  irun vset step ov oe (compile (CCall temps [CTypeset tt false x r n v] args)) s = (t, Finished, s') ->
+  ctxs s' = ctxs s /\ stack_of s' n = stack_of s n /\ get s' n = get s n.
+Proof. exact typeset_local_vanishes_lemma. Qed.
+
+(* `typeset -g [-x] [-r] NAME[=VALUE]` inside a function (no temporary
+   assignment before typeset itself): like readonly/export it acts on the
+   visible variable or a new one in the base context; after the return the
+   variable is there; with -r it is read-only; unless it was read-only already
+   (then the assignment is refused and the attributes are skipped) it has the
+   value given and, with -x, the export flag. *)
+Theorem typeset_global_in_function_persists : forall ov oe temps x r n v args s t s',
+  Inv s ->
+  irun vset step ov oe (compile (CCall temps [CTypeset [] true x r n v] args)) s = (t, Finished, s') ->
+  exists w, get s' n = Some w /\ (r = true -> is_ro w = true) /\
+    (is_ro w = true \/ ((forall val, v = Some val -> vval w = Some val) /\ (x = true -> vexp w = true))).
+Proof. exact typeset_g_in_function_lemma. Qed.
+
+(* `unset NAME` inside a function (unset/semantics.rs: Scope::Global) removes
+   the variable from EVERY context, the caller's locals and the global too:
+   nothing is revealed, inside or after the return. *)
+Theorem unset_in_function_removes_everywhere : forall ov oe temps n args s t s',
+  Inv s ->
+  irun vset step ov oe (compile (CCall temps [CUnset n] args)) s = (t, Finished, s') ->
+  get s' n = None.
+Proof. exact unset_in_function_lemma. Qed.
+
+(* The variable of a `for` loop run inside a function is not local to it. *)
+Theorem for_variable_in_function_persists : forall ov oe temps n v args s t s',
+  Inv s ->
+  irun vset step ov oe (compile (CCall temps [CFor n [v] []] args)) s = (t, Finished, s') ->
+  exists w, get s' n = Some w /\ vval w = Some (Scalar v).
+Proof. exact for_in_function_lemma. Qed.
+
+Example scope_theorems_nonvacuous :
+  Inv ex_pre_state /\
+  (exists t s', irun vset step (m_obs_vars [A; B]) (m_obs_env [A; B])
+                 (compile (CCall [(A, Scalar [55%N])] [CReadonly A (Some FIVE)] [])) ex_pre_state
+               = (t, Finished, s')) /\
+  (exists t s', irun vset step (m_obs_vars [A; B]) (m_obs_env [A; B])
+                 (compile (CCall [(A, Scalar [55%N])] [CExport A None] [])) ex_pre_state
+               = (t, Finished, s')) /\
+  (exists t s', irun vset step (m_obs_vars [A; B]) (m_obs_env [A; B])
+                 (compile (CCall [(A, Scalar [55%N])] [CTypeset [] false true true A (Some FIVE)] [])) ex_pre_state
+               = (t, Finished, s')).
+Proof. exact (conj ex_pre_inv ex_scope_runs). Qed.
+
+Example scope_theorems_nonvacuous2 :
+  Inv ex_pre_state /\
+  (exists t s', irun vset step (m_obs_vars [A; B]) (m_obs_env [A; B])
+                 (compile (CCall [(A, Scalar [55%N])] [CTypeset [] true true true A (Some FIVE)] [])) ex_pre_state
+               = (t, Finished, s')) /\
+  (exists t s', irun vset step (m_obs_vars [A; B]) (m_obs_env [A; B])
+                 (compile (CCall [(A, Scalar [55%N])] [CUnset A] [])) ex_pre_state
+               = (t, Finished, s')) /\
+  (exists t s', irun vset step (m_obs_vars [A; B]) (m_obs_env [A; B])
+                 (compile (CCall [(A, Scalar [55%N])] [CFor A [[49%N]] []] [])) ex_pre_state
+               = (t, Finished, s')).
+Proof. exact (conj ex_pre_inv ex_scope_runs2). Qed.
+
+(* Why a built-in that takes Scope::Local for Scope::Global shows nothing at
+   top level: while the base context is the only regular one the two scopes
+   are the same operation ... *)
+Theorem local_scope_is_global_at_top_level : forall s n ms,
+  topreg (ctxs s) = Some 0 ->
+  step s (OGetOrNew n SLocal ms) = step s (OGetOrNew n SGlobal ms).
+Proof. exact local_is_global_at_top_level. Qed.
+
+(* ... and inside a function they are not. *)
+Theorem local_scope_differs_in_function :
+  exists s n ms, Inv s /\ topreg (ctxs s) = Some 1 /\
+    step s (OGetOrNew n SLocal ms) <> step s (OGetOrNew n SGlobal ms).
+Proof. exact local_differs_in_function. Qed.
+
 (* The unconditional statement "an assignment prefixed to a regular built-in
    does not outlive it" is FALSE of the model when the built-in itself declares
    the same variable (typeset; the same mechanism applies to read): the
@@ -405,3 +503,11 @@ Print Assumptions quirk_is_only_a_flag.
 Print Assumptions quirk_does_not_change_environment.
 Print Assumptions return_ends_the_call.
 Print Assumptions for_variable_persists.
+Print Assumptions readonly_in_function_persists.
+Print Assumptions export_in_function_persists.
+Print Assumptions typeset_local_vanishes_at_return.
+Print Assumptions local_scope_is_global_at_top_level.
+Print Assumptions local_scope_differs_in_function.
+Print Assumptions typeset_global_in_function_persists.
+Print Assumptions unset_in_function_removes_everywhere.
+Print Assumptions for_variable_in_function_persists.
